@@ -3,8 +3,8 @@
 import json, os
 ROOT = os.path.dirname(os.path.dirname(os.path.abspath(__file__)))
 TECH = "bounded symbolic execution of the real Python code (CrossHair state space) with z3 deciding every branch and every property condition per path; counterexamples replayed natively"
-NOTE_COMMON = ("Trusted: CrossHair 0.0.110's models of Python int/bytes/str, z3 5.1, the adaptations E1-E6 and models B1-B6/M1 of "
-               "DESIGN.md section 3 (validated against the builtins at setup). Bounded: see coverage.bounds / outside_claim in the evidence; "
+NOTE_COMMON = ("Trusted: CrossHair 0.0.110's models of Python int/bytes/str, z3 5.1, the adaptations E1-E9 and models B1-B7/M1 of "
+               "DESIGN.md section 0.2 (validated against the builtins at setup). Bounded: see coverage.bounds / outside_claim in the evidence; "
                "partitions that do not exhaust within their budget are listed as incomplete and claim nothing.")
 CHECKS = {
  "C01": dict(text="For every generated well-formed shape (live tables) with its interval-valued leaves symbolic, and every primitive type, strict decoding succeeds and its events equal the interpretation of an independent reference interpreter over the pinned layout; decided per path for all leaf values.",
